@@ -227,9 +227,13 @@ def move_runs(ctx, reps):
                     return table[c]
 
                 run = strat.run_real("minimize-balanced", cfg, tc, dec, max_tests=3000, watchdog=5.0)
-                ctx.evaluations += 1
                 case = dict(strategy="minimize-balanced", cfg=cfg, parts=enc_list(parts), label="move",
                             verdicts="".join("1" if v else "0" for v in run.verdicts[:200]))
+                if run.error and ("test-limit" in run.error or "hang" in run.error):
+                    ctx.evaluations += 1
+                else:
+                    # the move is modelled (PairsMove.lean), including the failing `assert` of the unchanged move loop
+                    ctx.expect("minimize-balanced", strat.model_line("minimize-balanced", cfg, f, run.verdicts), run.encode(), case)
                 if run.error:
                     ctx.bump("move-run-not-judged:" + run.error.split(":")[0])
                     continue
